@@ -338,6 +338,37 @@ def edge_cases(mode, years):
                                       "day_of_week": dow}}
 
 
+def special_date_time_cases():
+    """the time-of-day limits on the dates a leap second could fall on (and
+    some others), in UTC and other zones: second 60 is never admitted"""
+    for (y, mth, d) in ((2016, 12, 31), (2015, 6, 30), (2016, 6, 30),
+                        (2000, 2, 29), (2016, 12, 30), (1972, 12, 31)):
+        for h, mi, sec in ((23, 59, 59), (23, 59, 60), (23, 59, 61),
+                           (23, 60, 0), (22, 59, 60), (0, 0, 60),
+                           (24, 0, 0), (24, 0, 1)):
+            legal = (h < 24 and mi < 60 and sec < 60) or (h, mi, sec) == (
+                24, 0, 0)
+            for zone in ((0, 0), (1, 0), None):
+                kw = {"year": y, "month_of_year": mth, "day_of_month": d,
+                      "hour_of_day": h, "minute_of_hour": mi,
+                      "second_of_minute": sec}
+                ztxt = ""
+                if zone is not None:
+                    kw.update(time_zone_hour=zone[0],
+                              time_zone_minute=zone[1])
+                    ztxt = "Z" if zone == (0, 0) else "+01:00"
+                yield {"op": "ctor", "mode": "gregorian", "what": "time",
+                       "kw": kw, "legal": legal, "near": True,
+                       "no_fields": True}
+                yield {"op": "text", "mode": "gregorian", "what": "time",
+                       "text": "%04d-%02d-%02dT%02d:%02d:%02d%s" % (
+                           y, mth, d, h, mi, sec, ztxt), "legal": legal}
+                yield {"op": "text", "mode": "gregorian", "what": "time",
+                       "text": "%04d%02d%02dT%02d%02d%02d%s" % (
+                           y, mth, d, h, mi, sec, ztxt.replace(":", "")),
+                       "legal": legal}
+
+
 def operator_cases():
     """the notations DateTimeOperator.date_parse hands to the C library
     (ctime, Unix date, custom --parse-format): impossible fields are still
@@ -531,12 +562,13 @@ DUR_SEEDS = [
     "PT1,5H", "PT0.5S", "-P1D", "-PT1H30M", "P0Y", "P52W", "P1DT12H",
     "P0001-02-03T04:05:06", "P00010203T040506", "P0001-002T00", "PT36H",
     "P1Y6M", "PT1H1,5M", "P3M2DT5,5S", "-P1Y2M3DT4H5M6,7S", "P10000D",
+    "P0004-03", "P+000004-03", "P0000-11", "P0004", "P0004-123",
     "P2000-01-01T00:00:00", "P0000-00-00T00:30,5", "P00000000T0030.5",
     "P0000-000T01:00,25", "P0001-01-01T10,5", "P0000-00-01T00:00:00,5",
 ]
 REC_SEEDS = [
     "R7/8504/PT1,e885H",    # regression: used to raise OverflowError
-    "R2/2000-01-01T00Z/P0000-00-00T00:30,5",
+    "R2/2000-01-01T00Z/P0000-00-00T00:30,5", "R/2000-01-01T00Z/P0001-02",
     "R/2000-01-01T00Z/P1D", "R5/2000-01-01T00Z/P1D", "R/P1D/2000-01-01T00Z",
     "R3/P1M/2000-03-31T00Z", "R5/2000/2001", "R/2000-01-01T00Z/2000-01-02T00Z",
     "R1/2000-01-01T00Z/P1Y", "R2/P1W/20000101T00Z", "R/20000101T00Z/PT6H",
@@ -896,6 +928,9 @@ def workload(ctx, repo):
                 ctx.sample(case)
             run_case(ctx, repo, case)
     if ctx.worker == 0:
+        for case in special_date_time_cases():
+            ctx.case = case
+            run_case(ctx, repo, case)
         for case in operator_cases():
             ctx.case = case
             run_case(ctx, repo, case)
